@@ -189,18 +189,49 @@ func (c *Ctx) rulesC05(a *coreAnchors) {
 	if se := c.fn(pm + ":Transition.setupExitEnter"); se != nil && fExits != nil && fEnters != nil {
 		ws := writesOfFieldIn(se, fExits)
 		c.check(len(ws) > 0, "C05.sort", "setupExitEnter stores Exits", se.Pos(), "Exits must be computed in setupExitEnter")
-		for i, w := range ws {
-			sorted := false
-			for _, s := range c.sitesIn(se, "iface:RelationsResolver.SortStates") {
-				if len(s.Common().Args) == 1 && sameSlice(s.Common().Args[0], w.Val) && dominatesInstr(s, w.Instr) {
-					sorted = true
+		// the stored value, or (built by a private helper of setupExitEnter)
+		// what that helper returns, judged at its return
+		type built struct {
+			fn  *ssa.Function
+			val ssa.Value
+			at  ssa.Instruction
+		}
+		builtFrom := func(v ssa.Value, at ssa.Instruction) []built {
+			if call, ok := v.(*ssa.Call); ok {
+				if cal := call.Call.StaticCallee(); cal != nil && cal != se && len(cal.Blocks) > 0 && c.hostedBy(cal, se) {
+					var out []built
+					for _, r := range returnsOf(cal) {
+						if len(retVals(r)) == 1 {
+							out = append(out, built{cal, retVals(r)[0], r})
+						}
+					}
+					if len(out) > 0 {
+						return out
+					}
 				}
+			}
+			return []built{{se, v, at}}
+		}
+		for i, w := range ws {
+			sorted := true
+			for _, bt := range builtFrom(w.Val, w.Instr) {
+				one := false
+				for _, s := range c.sitesIn(bt.fn, "iface:RelationsResolver.SortStates") {
+					if len(s.Common().Args) == 1 && sameSlice(s.Common().Args[0], bt.val) && dominatesInstr(s, bt.at) {
+						one = true
+					}
+				}
+				sorted = sorted && one
 			}
 			c.check(sorted, "C05.sort", "Exits sorted before store"+nth(i), w.Instr.Pos(), "the slice stored in Transition.Exits must have been passed to resolver.SortStates first; stored "+render(w.Val))
 		}
 		// Enters: appended while ranging over TargetStates()
 		for i, w := range writesOfFieldIn(se, fEnters) {
-			okv := flowsFrom(w.Val, func(v ssa.Value) bool {
+			wv := w.Val
+			if bts := builtFrom(w.Val, w.Instr); len(bts) == 1 {
+				wv = bts[0].val
+			}
+			okv := flowsFrom(wv, func(v ssa.Value) bool {
 				call, ok := v.(*ssa.Call)
 				if !ok {
 					return false
@@ -211,6 +242,9 @@ func (c *Ctx) rulesC05(a *coreAnchors) {
 					for _, arg := range call.Call.Args[1:] {
 						for _, el := range variadicElems(arg) {
 							valueTree(el, 8, func(x ssa.Value) {
+								if p, ok := x.(*ssa.Parameter); ok {
+									x = c.hostedArg(p, se)
+								}
 								if cl, ok := x.(*ssa.Call); ok && callIs(&cl.Call, "Transition", "TargetStates") {
 									found = true
 								}
@@ -788,10 +822,12 @@ func (c *Ctx) rulesC14(a *coreAnchors, la *LockAnalysis) {
 	}
 	// C14.once
 	pq := a.processQueue
-	nt := c.sitesIn(pq, funcKey(a.newTransition))
-	ee := c.sitesIn(pq, funcKey(a.emitEvents))
+	nt := c.innerSites(pq, funcKey(a.newTransition))
+	ee := c.innerSites(pq, funcKey(a.emitEvents))
 	c.check(len(nt) == 1 && len(ee) == 1, "C14.once", "processQueue has one newTransition and one emitEvents site", pq.Pos(), fmt.Sprintf("%d / %d", len(nt), len(ee)))
-	if len(nt) == 1 && len(ee) == 1 {
+	if len(nt) == 1 && len(ee) == 1 && nt[0].Parent() != ee[0].Parent() {
+		c.undecided("C14.once: newTransition and emitEvents are called from different helpers of processQueue")
+	} else if len(nt) == 1 && len(ee) == 1 {
 		c.check(dominatesInstr(nt[0], ee[0]) && sameValue(ee[0].Common().Args[0], nt[0].Value()), "C14.once", "emitEvents runs on the transition just created", ee[0].Pos(), "emitEvents receiver must be the newTransition result, dominated by it")
 		// every path from newTransition to the loop back-edge/return passes emitEvents
 		c.check(allPathsFromPassThrough(nt[0], func(i ssa.Instruction) bool { return i == ee[0] }), "C14.once", "every created transition is executed", nt[0].Pos(), "a path from newTransition to a return avoids emitEvents")
@@ -800,7 +836,7 @@ func (c *Ctx) rulesC14(a *coreAnchors, la *LockAnalysis) {
 	for _, tgt := range []*ssa.Function{a.newTransition, a.emitEvents} {
 		sites, vals := c.allCallersOf(tgt)
 		for _, s := range sites {
-			c.check(s.Fn == pq, "C14.once", funcKey(tgt)+" called from "+funcKey(s.Fn), s.Instr.Pos(), "transitions are created and executed only by processQueue")
+			c.check(s.Fn == pq || c.hostedBy(topFunc(s.Fn), pq), "C14.once", funcKey(tgt)+" called from "+funcKey(s.Fn), s.Instr.Pos(), "transitions are created and executed only by processQueue")
 		}
 		for _, v := range vals {
 			c.fail("C14.once", funcKey(tgt)+" used as a value in "+funcKey(v.Parent()), v.Pos(), "must be called directly")
@@ -947,9 +983,17 @@ func (c *Ctx) rulesC14(a *coreAnchors, la *LockAnalysis) {
 	// timeLast <- &t.TimeAfter in processQueue after emitEvents
 	if fTL != nil && len(ee) == 1 {
 		okTL := false
-		for _, s := range c.sitesIn(pq, "method:Store") {
+		for _, s := range c.innerSites(pq, "method:Store") {
 			args := s.Common().Args
-			if len(args) == 2 && fieldOf(args[0]) == fTL && fieldOf(args[1]) == fTA && strictlyBeforeOrSameIter(ee[0], s) {
+			if len(args) != 2 || fieldOf(args[0]) != fTL || fieldOf(args[1]) != fTA {
+				continue
+			}
+			// ordered in the function both live in, else through their stand-ins
+			x, y := ssa.Instruction(ee[0]), ssa.Instruction(s)
+			if x.Parent() != y.Parent() {
+				x, y = c.standIn(pq, x), c.standIn(pq, y)
+			}
+			if x != nil && y != nil && x != y && strictlyBeforeOrSameIter(x, y) {
 				okTL = true
 			}
 		}
